@@ -143,6 +143,8 @@ func (r *Report) finishNoEvidence(kfs []knownFinding) int {
 func doDump(cx *Ctx, what string) {
 	w := cx.W
 	switch {
+	case what == "tags":
+		w.dumpTags()
 	case what == "funcs":
 		for _, f := range w.Funcs {
 			fmt.Println(w.FuncKey(f), w.FnPos(f))
